@@ -177,7 +177,10 @@ Local Open Scope string_scope.
 Definition is_exc (r : R) : bool := match r with 9 :: _ => true | _ => false end.
 (* result code 10: the harness saw the shared resource used outside the component's critical section *)
 Definition is_unguarded (r : R) : bool := match r with 10 :: _ => true | _ => false end.
+(* result [9; 8]: the call never returned (the scheduler found no runnable thread: deadlock) *)
+Definition is_stuck (r : R) : bool := match r with [9; 8] => true | _ => false end.
 Definition blame (o : obs) : list string :=
+  if existsb (existsb is_stuck) o then ["no_deadlock"] else
   if existsb (existsb is_unguarded) o then ["critical_section_discipline"]
   else if existsb (existsb is_exc) o then ["no_exception"] else ["linearizable"].
 Definition shape_ok {A} (calls : list (list A)) (o : obs) : bool :=
